@@ -66,9 +66,18 @@ class Plan:
         self._cache[part] = out
         return out
 
+    CHUNK = 3500
+
     def _mk(self, part, fam, roots):
+        """one crate per (part, family); big ones are split so that the
+        single-threaded LTO of each crate stays short"""
         name = "h_%s_%s" % (part, fam_name(*fam) if fam else "all")
-        return B.Crate(name, roots, extra_code=G.controls())
+        if len(roots) <= self.CHUNK:
+            return [B.Crate(name, roots, extra_code=G.controls())]
+        n = (len(roots) + self.CHUNK - 1) // self.CHUNK
+        per = (len(roots) + n - 1) // n
+        return [B.Crate("%s_%d" % (name, i), roots[i * per:(i + 1) * per], extra_code=G.controls())
+                for i in range(n)]
 
     # ------------------------------------------------------------------
     def _part_inh(self):
@@ -78,7 +87,7 @@ class Plan:
             for l in layouts_for(self.tier, fam):
                 roots += self.gen.inherent_roots(l, num_types=None,
                                                  want=lambda g, n: g not in ("conv", "parse"))
-            out.append(self._mk("inh", fam, roots))
+            out.extend(self._mk("inh", fam, roots))
         return out
 
     def _conv_types(self, l):
@@ -105,7 +114,7 @@ class Plan:
             for l in ls:
                 roots += self.gen.inherent_roots(l, num_types=self._conv_types(l),
                                                  want=lambda g, n: g == "conv")
-            out.append(self._mk("conv", fam, roots))
+            out.extend(self._mk("conv", fam, roots))
         return out
 
     def _part_parse(self):
@@ -115,7 +124,7 @@ class Plan:
             for l in layouts_for(self.tier, fam):
                 roots += self.gen.inherent_roots(l, want=lambda g, n: g == "parse")
                 roots += [r for r in self.gen.misc_trait_roots(l) if r.group == "parse"]
-            out.append(self._mk("parse", fam, roots))
+            out.extend(self._mk("parse", fam, roots))
         return out
 
     def _part_fmt(self):
@@ -124,7 +133,7 @@ class Plan:
             roots = []
             for l in layouts_for(self.tier, fam):
                 roots += self.gen.fmt_roots(l)
-            out.append(self._mk("fmt", fam, roots))
+            out.extend(self._mk("fmt", fam, roots))
         return out
 
     def _part_ops(self):
@@ -139,7 +148,7 @@ class Plan:
                     roots += self.gen.op_roots(l)
                 else:
                     roots += self.gen.op_roots(l, forms="value", shift_types=("i32", "u32", "u128", "i8"))
-            out.append(self._mk("ops", fam, roots))
+            out.extend(self._mk("ops", fam, roots))
         return out
 
     def _cmp_partners(self):
@@ -163,7 +172,7 @@ class Plan:
             for l in ls:
                 roots += self.gen.cmp_roots(l, rhs_layouts=partners, prims=prims)
                 roots += [r for r in self.gen.misc_trait_roots(l) if r.group == "cmp"]
-            out.append(self._mk("cmp", fam, roots))
+            out.extend(self._mk("cmp", fam, roots))
         return out
 
     def _part_wrap(self):
@@ -183,7 +192,7 @@ class Plan:
                                                shift_types=("i32", "u32", "u128", "i8"))
                 roots += self.gen.fmt_roots(l, wrapping=True)
                 roots += self.gen.misc_trait_roots(l, wrapping=True)
-            out.append(self._mk("wrap", fam, roots))
+            out.extend(self._mk("wrap", fam, roots))
         return out
 
     def _part_trait(self):
@@ -194,7 +203,7 @@ class Plan:
                 [A.Layout(A.layout_name(fam[0], fam[1], fam[1] // 2))]
             for l in ls:
                 roots += self.gen.trait_method_roots(l)
-            out.append(self._mk("trait", fam, roots))
+            out.extend(self._mk("trait", fam, roots))
         return out
 
     def transc_types(self):
@@ -234,7 +243,7 @@ LOOP_CONTROLS = """
 #[no_mangle] #[inline(never)]
 pub fn ctl__loop_const(a: u64) -> u64 { let mut x = a; for i in 0..37u64 { x = x.rotate_left(3) ^ i; } x }
 #[no_mangle] #[inline(never)]
-pub fn ctl__loop_linear(a: u64) -> u64 { let mut x = a; let mut n = 0u64; while x > 7 { x -= 7; n += 1; } n }
+pub fn ctl__loop_linear(a: u64) -> u64 { let mut x = a; let mut n = 0u64; while x > 7 { x -= 7; n = n.wrapping_mul(3) ^ x; } n }
 #[no_mangle] #[inline(never)]
 pub fn ctl__loop_halving(a: u64) -> u64 { let mut x = a; let mut n = 0u64; while x >= 2 { x = (x >> 1) + (x & 1); n = n.wrapping_add(1); } n }
 """
